@@ -270,7 +270,7 @@ func (vc *VC) calleeFootprint(fc *FuncContract, comp, av string, env *Env, pre *
 				sv := vc.evalVal(mi.Elems, env, pre, pre)
 				et := elemTypeOf(sv.T)
 				if isScalarType(et) && elemComp(et) == comp {
-					parts = append(parts, and(sx("(_ is elem)", av), eq(sx("epar", av), sx("sarr", sv.S))))
+					parts = append(parts, and(sx("(_ is elem)", av), eq(sx("epar", av), sx("sarr", sv.S)), sx("<=", sx("soff", sv.S), sx("eidx", av)), sx("<", sx("eidx", av), sx("+", sx("soff", sv.S), sx("slen", sv.S)))))
 				}
 				continue
 			}
